@@ -192,6 +192,10 @@ CHECKS = {
                      "discharged here as well."),
 }
 REASONS = {}
+DEPS_NOTE = (" Dependency closure (DESIGN.md 2.3a): the run also discharges the obligations of the modules this property rests on - both "
+             "node mixin families (C01/C02/C04 obligations and their member-by-member comparison), the symlink and constructor contracts, "
+             "the iterator contracts where the code iterates, a pin of config.ASSERTIONS - so that a change which breaks the property "
+             "through a dependency is reported by this check too; thorough tier: dependencies at quick solver strength.")
 
 m = {"version": 1,
      "setup_cmd": "./lemmas/check_all.sh >/dev/null 2>&1; python3-vt -B -m compileall -q pyvc contracts checks harness >/dev/null; true",
@@ -211,7 +215,7 @@ for p in PROPS:
                             "evidence_file": "evidence/%s.json" % p,
                             "replay_cmd_template": "./check %s --replay {path}" % p, "engine": "pyvc",
                             "level_claimed": {"category": c["cat"], "text": c["text"], "design_ref": "DESIGN.md " + c["design"]},
-                            "level_note": c.get("note", BASE_NOTE), "technique": c["tech"]})
+                            "level_note": c.get("note", BASE_NOTE) + DEPS_NOTE, "technique": c["tech"]})
     else:
         m["not_applicable"].append({"property_id": p, "reason": REASONS.get(p, "check not built yet (work in progress; see DESIGN.md section 3)")})
 json.dump(m, open("MANIFEST.json", "w"), indent=1)
